@@ -22,7 +22,7 @@ T0 = 1000.0
 # the key alphabet: ==-equal arguments of different types (-1 / -1.0, True / 1), positional against keyword, and UNEQUAL
 # arguments of one type with EQUAL hashes (hash(-1) == hash(-2) in CPython): a key is matched by equality, not by hash
 # ... and the call with NO arguments at all (its key is empty - and a key all the same)
-ARGS = {1: ((-1,), {}), 2: ((-1.0,), {}), 3: ((), {}), 4: ((-2,), {}), 5: ((), {"x": -1}), 6: ((True,), {}), 7: ((1,), {})}
+ARGS = {1: ((-1,), {}), 2: ((-1.0,), {}), 3: ((), {"x": -1}), 4: ((), {"x": -1.0}), 5: ((), {}), 6: ((-2,), {}), 7: ((True,), {}), 8: ((1,), {})}
 
 
 class Val:
@@ -241,10 +241,10 @@ def gen_trace(rnd, length):
     form = rnd.choice(ALL_FORMS)
     limit = rnd.choice([1, 2, 2, 3, 4])
     expn = rnd.choice([0, 2, 3, 5])
-    d = factory(7, 3)()
+    d = factory(8, 3)()
     d.reset(dict(form=form, limit=limit, expn=expn))
     tr = [dict(ev="Init", init=dict(form=form, limit=limit, expn=expn))]
-    nkeys = rnd.choice([2, 4, 7])
+    nkeys = rnd.choice([2, 4, 8])
     try:
         for _ in range(length):
             if form.endswith("method") and rnd.random() < 0.08:
@@ -353,13 +353,13 @@ def run(rep, work, tier, seed):
     leg_t_gen(rep, work, SPEC, f"trace_{tier}", traces,
               variables=["form", "limit", "expn", "now", "entries", "ninv", "invKey", "invAt", "invOut", "uses", "rid", "nrid",
                          "nren", "nops", "drained", "obs"],
-              constants=dict(NKeys=7, NRecv=3, Forms='{"sync_fn", "sync_method", "async_fn", "async_method"}', Limits="1..4",
+              constants=dict(NKeys=8, NRecv=3, Forms='{"sync_fn", "sync_method", "async_fn", "async_method"}', Limits="1..4",
                              Expirations="{0, 2, 3, 5}", MaxT=100000, MaxOps=100000, Outs='{"val", "exc"}',
                              Steps="1..3", MaxRenew=100000, Nested="TRUE", Bug='"none"'),
               config_vars=["form", "limit", "expn"], actions=dict(Call=3, CallNested=3, CallSlow=3, Advance=1, Renew=1, Drain=0),
               invariants=["Capacity", "NoDuplicateKeys", "Sound"])
     rep.assumptions += [
-        "key alphabet f(-1), f(-1.0), f(), f(-2), f(x=-1), f(True), f(1) (==-equal but differently typed, positional vs keyword, "
+        "key alphabet f(-1), f(-1.0), f(x=-1), f(x=-1.0), f(), f(-2), f(True), f(1) (==-equal but differently typed, positional vs keyword, "
         "unequal with equal hashes); method "
         "receivers are ==-equal, hash-equal, distinct instances",
         "exact integer virtual time; expiration=0 means 'never expires' in haiway and is modelled so",
